@@ -21,3 +21,4 @@ import WtfModel.Props.C05b
 #print axioms Wtf.C05.transparent_keyed_finite
 #print axioms Wtf.C05.no_sharing_keyed
 #print axioms Wtf.C05.no_sharing_keyed_finite
+#print axioms Wtf.C05.norm_valid_model
